@@ -1,12 +1,17 @@
 package main
 
 import (
+	"context"
 	"fmt"
 	"strings"
 	"time"
 
 	admissionv1 "k8s.io/api/admission/v1"
 	corev1 "k8s.io/api/core/v1"
+	metav1 "k8s.io/apimachinery/pkg/apis/meta/v1"
+	"k8s.io/apimachinery/pkg/types"
+	"k8s.io/pod-security-admission/admission"
+	admissionapi "k8s.io/pod-security-admission/admission/api"
 	"k8s.io/pod-security-admission/api"
 	"k8s.io/pod-security-admission/policy"
 )
@@ -224,6 +229,68 @@ func runC01(c *Ctx) {
 		ok := a.Obj.Pod == nil || apiValid(&a.Obj.Pod.Spec)
 		a.StdOracle = ok && !a.Syn
 	})
+	runC01History(c)
+}
+
+// mutable cluster: namespaces are relabelled between requests, as an administrator would (metadata.generation does not
+// change on a label edit; the UID stays)
+type relabelNS struct {
+	labels map[string]map[string]string
+}
+
+func (n *relabelNS) GetNamespace(ctx context.Context, name string) (*corev1.Namespace, error) {
+	l, ok := n.labels[name]
+	if !ok {
+		return nil, fmt.Errorf("not found")
+	}
+	cp := map[string]string{}
+	for k, v := range l {
+		cp[k] = v
+	}
+	return &corev1.Namespace{ObjectMeta: metav1.ObjectMeta{Name: name, UID: types.UID("uid-" + name), Generation: 1, Labels: cp}}, nil
+}
+
+// runC01History: ONE long-lived Admission, a history of pod requests interleaved with namespace relabelling; every verdict
+// must follow the labels the namespace has at that moment.
+func runC01History(c *Ctx) {
+	r := NewRng(c.Seed + 101)
+	histories := sizes(c, 30, 400)
+	for h := 0; h < histories; h++ {
+		ns := &relabelNS{labels: map[string]map[string]string{"n0": {}, "n1": {}, "n2": {}}}
+		defaults := genDefaults(r)
+		adm := &admission.Admission{
+			Configuration:    &admissionapi.PodSecurityConfiguration{Defaults: defaults},
+			Evaluator:        realEvaluator, Metrics: &recorder{}, PodSpecExtractor: admission.DefaultPodSpecExtractor{}, NamespaceGetter: ns, PodLister: &fakeLister{}}
+		if err := adm.CompleteConfiguration(); err != nil {
+			panic(err)
+		}
+		for step := 0; step < 40; step++ {
+			name := pick(r, []string{"n0", "n1", "n2"})
+			if r.Chance(1, 3) {
+				ns.labels[name] = genLabels(r)
+				c.Tag("history.relabel")
+			}
+			pc := genPod(r.Fork(), step)
+			if catCache == nil {
+				catCache = catalogPods()
+			}
+			if r.Bool() {
+				pc = PodCase{Pod: catCache[r.Intn(len(catCache))].Pod.DeepCopy()}
+			}
+			a := &AdmitCase{Defaults: defaults, Res: "pods", Op: admissionv1.Create, Name: "p", NS: name, User: "u", Obj: ObjSpec{Kind: "pod", Pod: pc.Pod}, NSLabels: ns.labels[name]}
+			resp := adm.Validate(context.Background(), a.attributes())
+			c.Eval(1)
+			pol, _ := effectivePolicy(a)
+			want := evalOf(a, pol.Enforce, pc.Pod).Allowed
+			if resp.Allowed != want {
+				c.Violate(Finding{Desc: fmt.Sprintf("step %d of a request history on one controller: allowed=%v but the namespace's current labels resolve to %s, which says allowed=%v", step, resp.Allowed, pol.Enforce.String(), want),
+					Key: "verdict-history", Input: J{"history": h, "step": step, "namespace": name, "labels": ns.labels[name], "pod": pc.Pod}})
+			}
+			if ann, ok := resp.AuditAnnotations[api.EnforcedPolicyAnnotationKey]; ok && pol.Enforce.Level != api.LevelPrivileged && ann != pol.Enforce.String() {
+				c.Violate(Finding{Desc: fmt.Sprintf("step %d: enforce-policy annotation %q, current labels resolve to %q", step, ann, pol.Enforce.String()), Key: "annotation-history", Input: J{"history": h, "step": step}})
+			}
+		}
+	}
 }
 
 // ---------------------------------------------------------------- C06
